@@ -3,7 +3,7 @@
 //!
 //! One `Session` per pool under test. Threads taking part have a role (dispatchers `D1`.. are
 //! registered by the harness, workers `W1`.. register themselves at their first hook
-//! `pool.w.inc` in spawn order). In STEER mode a thread arriving at a `pool.*` hook records the
+//! (`pool.w.run`: a new thread owns its first job) in spawn order). In STEER mode a thread arriving at a `pool.*` hook records the
 //! arrival and parks until the controller grants it a turn; in FREE mode hooks only record (and
 //! optionally perturb the timing with seeded sleeps). Several sessions run concurrently in one
 //! process: hooks are routed by a thread-local role, new worker threads by the pool identity the
@@ -158,7 +158,9 @@ fn sink(site: &'static str, a: u64, b: u64) {
     let (sess, role) = match me {
         Some(x) => x,
         None => {
-            if site != "pool.w.inc" {
+            // a thread the pool has created shows up at its first worker hook (pool.w.run since the fix commit:
+            // the new thread owns its first job; pool.w.inc in the old code)
+            if !site.starts_with("pool.w.") || site == "pool.w.exit" || site == "pool.w.done" {
                 return;
             }
             let Some(sess) = reg().get(&a).cloned() else { return };
